@@ -1,2 +1,169 @@
-(** placeholder until the C05 theorems are in place *)
-From Texel Require Import Prelude.Base.
+(** * C05 — returned rings are well formed, correctly oriented, collapse policy respected.
+
+    Model level, for all polygons inside the grid, valid or not.
+    - [C05_orientation] and [C05_keep_policy*] need no premise at all.
+    - [C05_rings_well_formed] ("does not repeat its first vertex at the end, no two equal consecutive
+      vertices, visits no vertex twice") is proved from two kinds of explicit premises that other parts of
+      the verification discharge:
+        (routing, C02) [routing_ok]: for every edge of every (normalised) input ring the centre list returned by
+        snapClosestPoints starts at the centre of the pixel of the edge's start and ends at the centre of
+        the pixel of its end ([segments_endpoints]) and has no two equal consecutive entries
+        ([segments_nodup_adjacent]);
+        (kmp) [kmp_short_nodup]: a kmpDeduplicate output of fewer than three vertices is repeat-free.
+      The other kmp fact used, [kmp_subseq], is already discharged (ProofsKmpSubseq / ProofsLevelJoin).
+      From them: [route_no_adj_lin] (the routed ring has no equal neighbours), [hit_accounting]
+      (flagged iff recorded twice), [route_counts] (the routed ring is a rotation of the recorded centres),
+      [split_repeat_free] (the stack invariant), and the lifting through dedupe / match / reversal.
+    - the component theorems about splitRing are restated at the end. *)
+From Coq Require Import ZArith List Bool Permutation.
+From Texel Require Import Prelude.Base Index.Model Snap.Model Snap.ProofsBasics Snap.ProofsSplit
+  Snap.ProofsSplitThms Snap.ProofsLevelRoute Snap.ProofsLevel Snap.ProofsLevelThms Snap.ProofsLevelC07
+  Snap.ProofsLevelJoin.
+Import ListNotations.
+Open Scope Z_scope.
+
+(** every returned ring: repeat-free, and (with two or more vertices) last <> first, no equal neighbours *)
+Theorem C05_rings_well_formed : forall g P levels cfg r hs,
+  (forall r r', no_adj_dup r -> kmpDeduplicate r = Ok r' -> (length r' < 3)%nat -> NoDup r') ->
+  insertPolygon g P = Ok hs ->
+  (forall L idx r0, In L levels -> nth_error P idx = Some r0 ->
+     routing_ok g (hotLevels g hs) L (ensureCorrectWindingOrder r0 (negb (Nat.eqb idx 0)))) ->
+  snapPolygon g P levels cfg = Ok r ->
+  forall L ps poly x, In (L, ps) r -> In poly ps -> In x poly ->
+    NoDup x /\ ((2 <= length x)%nat -> hd dp x <> last x dp /\ no_adj_dup x).
+Proof. exact snap_rings_well_formed. Qed.
+Print Assumptions C05_rings_well_formed.
+
+(** first ring shell, the rest holes; shell counter-clockwise or zero area, holes clockwise or zero area,
+    exactly opposite with reverse winding order; all of them with >= 3 vertices; collapsed parts last, as
+    single-ring polygons of one or two vertices, and only with keep-points-and-lines; never an empty list *)
+Theorem C05_orientation : forall g P levels cfg r L ps, snapPolygon g P levels cfg = Ok r -> In (L, ps) r ->
+  ps <> [] /\
+  exists big small, ps = big ++ small /\
+    Forall (poly_ok (if reverseWindingOrder cfg then -1 else 1)) big /\
+    Forall plpoly_ok small /\ (keepPointsAndLines cfg = false -> small = []).
+Proof. exact snap_orientation. Qed.
+Print Assumptions C05_orientation.
+
+(** keep policy, per level: present without keep => present with keep, same polygons followed by the
+    collapsed parts; without keep every ring has >= 3 vertices *)
+Theorem C05_keep_policy_level : forall g hots P cfg L ps,
+  snapLevel g hots P (setKeep cfg false) L = Ok (Some ps) ->
+  exists extra, snapLevel g hots P (setKeep cfg true) L = Ok (Some (ps ++ extra)) /\
+                Forall plpoly_ok extra /\
+                Forall (Forall (fun x : ring => (3 <= length x)%nat)) ps.
+Proof. exact keep_policy. Qed.
+Print Assumptions C05_keep_policy_level.
+
+Theorem C05_keep_policy : forall g P levels cfg rF rT,
+  snapPolygon g P levels (setKeep cfg false) = Ok rF -> snapPolygon g P levels (setKeep cfg true) = Ok rT ->
+  forall L ps, In (L, ps) rF ->
+    Forall (Forall (fun x : ring => (3 <= length x)%nat)) ps /\
+    exists extra, In (L, ps ++ extra) rT /\ Forall plpoly_ok extra.
+Proof. exact snap_keep_policy. Qed.
+Print Assumptions C05_keep_policy.
+
+(** a level at which the whole polygon collapses is absent, never mapped to an empty list *)
+Theorem C05_never_empty : forall g hots P cfg L, snapLevel g hots P cfg L <> Ok (Some []).
+Proof. exact level_never_empty. Qed.
+Print Assumptions C05_never_empty.
+
+Theorem C05_dead_level_absent : forall g hots P cfg L acc, keepPointsAndLines cfg = false ->
+  ringsLoop g hots L cfg acc0 0 P = Ok acc -> aAlive acc = false -> snapLevel g hots P cfg L = Ok None.
+Proof. exact dead_level_absent. Qed.
+Print Assumptions C05_dead_level_absent.
+
+(** ** components *)
+
+(** splitRing never panics on a non-empty ring, for ANY flag predicate *)
+Theorem C05_split_total : forall (r : ring) isOuter isMulti, r <> [] -> exists sets, splitRing r isOuter isMulti = Ok sets.
+Proof. exact split_total. Qed.
+Print Assumptions C05_split_total.
+
+(** if the flags contain every repeated vertex, no returned ring visits a vertex twice *)
+Theorem C05_split_repeat_free : forall (r : ring) isOuter isMulti sets,
+  (forall p, (2 <= count_occ pt_dec r p)%nat -> isMulti p = true) ->
+  splitRing r isOuter isMulti = Ok sets -> Forall (@NoDup pt) (rings_of_sets sets).
+Proof. exact split_repeat_free. Qed.
+Print Assumptions C05_split_repeat_free.
+
+(** shape, for any flags: no equal neighbours in, none out; at least two vertices *)
+Theorem C05_split_ring_shape : forall (r : ring) isOuter isMulti sets, no_adj_dup r ->
+  splitRing r isOuter isMulti = Ok sets ->
+  Forall (fun x : ring => no_adj_dup x /\ (2 <= length x)%nat) (rings_of_sets sets).
+Proof. exact split_ring_shape. Qed.
+Print Assumptions C05_split_ring_shape.
+
+Theorem C05_split_orientation : forall (r : ring) isOuter isMulti sets, splitRing r isOuter isMulti = Ok sets ->
+  Forall (fun x : ring => (3 <= length x)%nat /\ 0 <= xprod x) (outers sets) /\
+  Forall (fun x : ring => (3 <= length x)%nat /\ xprod x <= 0) (inners sets) /\
+  Forall (fun x : ring => (1 <= length x <= 2)%nat) (pointsAndLines sets).
+Proof. exact split_orientation. Qed.
+Print Assumptions C05_split_orientation.
+
+(** hit accounting: after routing a ring whose id is not yet in the hit maps, a centre is flagged for
+    the ring iff it was recorded at least twice (recorded = all but the first centre of every edge) *)
+Theorem C05_hit_accounting : forall g hots L id first verts st0 nr st,
+  routeRing g hots L id first verts st0 [] = Ok (nr, st) -> hits_fresh st0 id ->
+  forall p, isMultiFor st id p = true <->
+            (2 <= count_occ pt_dec (recorded (segsOf g hots L (edgesFrom first verts))) p)%nat.
+Proof. exact hit_accounting. Qed.
+Print Assumptions C05_hit_accounting.
+
+(** the routed ring has no two equal consecutive vertices as soon as no edge's centre list has *)
+Theorem C05_route_no_adj_dup : forall segs nr nr', Forall no_adj_lin segs -> no_adj_lin nr ->
+  assemble segs nr = Ok nr' -> no_adj_lin nr'.
+Proof. exact route_no_adj_lin. Qed.
+Print Assumptions C05_route_no_adj_dup.
+
+(** ** non-vacuity: shell with a spike and a hole, 32 x 32 pixels of size 2.  The routing premises hold at
+       every level (boolean check), the spike collapses to a line at level 3 and the hole to a point at
+       level 1; a figure eight is split at its double point. *)
+Definition exG : grid := mkGrid (mkExtent 0 0 64 64) 2 5.
+Definition exP : list ring :=
+  [[(2,2);(40,2);(40,40);(21,40);(20,60);(19,40);(2,40)]; [(10,10);(10,20);(20,20);(20,10)]].
+Definition exLevels : list nat := [5; 3; 1]%nat.
+
+Example C05_routing_premises_hold :
+  exists hs, insertPolygon exG exP = Ok hs /\
+    forall L idx r0, In L exLevels -> nth_error exP idx = Some r0 ->
+      routing_ok exG (hotLevels exG hs) L (ensureCorrectWindingOrder r0 (negb (Nat.eqb idx 0))).
+Proof.
+  destruct (insertPolygon exG exP) as [hs |] eqn:E; [| vm_compute in E; discriminate].
+  exists hs. split; [reflexivity |]. apply all_routing_okb_sound.
+  vm_compute in E. inversion E. vm_compute. reflexivity.
+Qed.
+
+Example C05_example_keep :
+  snapPolygon exG exP exLevels (mkConfig true false false) =
+    Ok [(5%nat, [[[(3,3);(41,3);(41,41);(21,41);(21,61);(19,41);(3,41)]; [(11,11);(11,21);(21,21);(21,11)]]]);
+        (3%nat, [[[(4,4);(44,4);(44,44);(20,44);(4,44)]; [(12,12);(12,20);(20,20);(20,12)]]; [[(20,44);(20,60)]]]);
+        (1%nat, [[[(16,16);(48,16);(48,48);(16,48)]]; [[(16,16)]]])] /\
+  snapPolygon exG exP exLevels (mkConfig false false false) =
+    Ok [(5%nat, [[[(3,3);(41,3);(41,41);(21,41);(21,61);(19,41);(3,41)]; [(11,11);(11,21);(21,21);(21,11)]]]);
+        (3%nat, [[[(4,4);(44,4);(44,44);(20,44);(4,44)]; [(12,12);(12,20);(20,20);(20,12)]]]);
+        (1%nat, [[[(16,16);(48,16);(48,48);(16,48)]]])].
+Proof. vm_compute. split; reflexivity. Qed.
+
+Example C05_example_figure_eight :
+  splitRing [(0,0);(2,2);(4,0);(4,4);(2,2);(0,4)] true (fun p => pt_eqb p (2,2)) =
+    Ok (mkSets [[(0,0);(2,2);(0,4)]; [(2,2);(4,0);(4,4)]] [] []) /\
+  snapPolygon exG [[(2,2);(30,30);(58,2);(58,58);(30,30);(2,58)]] [5; 2]%nat (mkConfig true false false) =
+    Ok [(5%nat, [[[(3,3);(31,31);(3,59)]]; [[(31,31);(59,3);(59,59)]]]);
+        (2%nat, [[[(8,8);(24,24);(8,56)]]; [[(24,24);(56,8);(56,56)]]])].
+Proof. vm_compute. split; reflexivity. Qed.
+
+(** bounded evidence for the premise [kmp_short_nodup] (NOT a proof of it): all chains over three centres of
+    length 3..7 without equal cyclic neighbours *)
+Fixpoint exChains (n : nat) : list (list pt) :=
+  match n with O => [[]] | S n' => flat_map (fun l => map (fun x => x :: l) [(0,0); (1,0); (2,0)]) (exChains n') end.
+Definition exCycDup (l : list pt) : bool := existsb (fun e => pt_eqb (fst e) (snd e)) (dedges l).
+Definition exHasDup (l : list pt) : bool :=
+  (fix go l := match l with [] => false | a :: r => mem_pt a r || go r end) l.
+Example C05_kmp_short_nodup_bounded :
+  forallb (fun l => exCycDup l ||
+                    match kmpDeduplicate l with
+                    | Ok r' => negb (length r' <? 3)%nat || negb (exHasDup r')
+                    | Err _ => false
+                    end) (flat_map exChains [3; 4; 5; 6; 7]%nat) = true.
+Proof. vm_compute. reflexivity. Qed.
